@@ -272,7 +272,9 @@ def drive(r, spec, respond="random", faults=None, max_steps=80):
             # the server accepts the connection, sends a prefix of its handshake (possibly nothing, possibly half a version line)
             # and then closes or resets the connection
             clean = bool(spec.lose_in_handshake)
-            cut = r.choice([0, 0, 3, 11, 12, 13, 14, 18, 20, len(hs) - 2])
+            cuts = [0, 3, 11, 12, 13, 14, 18, 20, len(hs) - 2]
+            drive.n_lih = getattr(drive, "n_lih", r.randrange(len(cuts))) + 1        # every cut in turn
+            cut = cuts[drive.n_lih % len(cuts)]
             part = hs[:cut]
             if part:
                 spec.events.append(("recv", part))
@@ -311,7 +313,9 @@ def drive(r, spec, respond="random", faults=None, max_steps=80):
                     # a framebuffer update with a good rectangle and one whose encoding the client does not know, in one
                     # chunk (either order): the client aborts; nothing after the abort may count as progress of the script
                     good = enc_raw(r, spec.pf, 0, 0, min(4, spec.size[0]), min(3, spec.size[1]))
-                    bw, bh = r.choice([(2, 2), (2, 2), (0, 0), (3, 0), (0, 3)])      # an empty rectangle in an unknown encoding is still unknown
+                    sizes_ = [(2, 2), (0, 0), (3, 0), (0, 3)]      # an empty rectangle in an unknown encoding is still unknown
+                    drive.n_ue = getattr(drive, "n_ue", r.randrange(4)) + 1          # every size in turn
+                    bw, bh = sizes_[drive.n_ue % 4]
                     bad = struct.pack("!HHHHi", 0, 0, bw, bh, r.choice([99, 7, 6, 50, -300, 0x7FFFFFFF])) + bytes(r.choice([0, 16, 40]))
                     body = (good.header() + good.body + bad) if r.random() < .5 else (bad + good.header() + good.body)
                     data = struct.pack("!BxH", 0, 2) + body
